@@ -31,6 +31,8 @@ OUT_OF_CLAIM = ['max_size above the bound (the only size-dependent branch is len
 STUBS = []
 
 CLASSES = [LRI, LRU]
+DFLT = -7
+VALS = [None, DFLT, 102, 103, 104, 105]   # stored values: None, the very object used as default, plain ints
 OPS = ['getitem', 'setitem', 'delitem', 'get', 'get_default', 'setdefault', 'update_mapping', 'update_pairs',
        'update_kw', 'ior', 'pop', 'pop_default', 'popitem', 'clear', 'copy', 'contains_eq', 'ctor_values',
        'update_cache']
@@ -216,10 +218,10 @@ def apply_op(c, M, cls, name, kk, kk2, log, on_miss):
         M.remove(kk)
     elif name in ('get', 'get_default'):
         found, exp = M.lookup(kk)
-        r = c.get(kk) if name == 'get' else c.get(kk, -7)
+        r = c.get(kk) if name == 'get' else c.get(kk, DFLT)
         if not found:
             M.s += 1
-            exp = None if name == 'get' else -7
+            exp = None if name == 'get' else DFLT
         if not (r == exp):
             return 'get_return'
     elif name == 'setdefault':
@@ -255,7 +257,7 @@ def apply_op(c, M, cls, name, kk, kk2, log, on_miss):
     elif name in ('pop', 'pop_default'):
         present = M.has(kk)
         try:
-            r = c.pop(kk) if name == 'pop' else c.pop(kk, -7)
+            r = c.pop(kk) if name == 'pop' else c.pop(kk, DFLT)
         except KeyError:
             if present or name != 'pop':
                 return 'pop_keyerror'
@@ -263,7 +265,7 @@ def apply_op(c, M, cls, name, kk, kk2, log, on_miss):
         if present:
             if not (r == M.val(kk)):
                 return 'pop_return'
-        elif name == 'pop' or not (r == -7):
+        elif name == 'pop' or not (r == DFLT):
             return 'pop_default'
         M.remove(kk)
     elif name == 'popitem':
@@ -353,8 +355,9 @@ def _body(ci, om, name, ms, n, pre_del, ks, na):
     c = mk(cls, ms, om, log)
     M = Model(ms, ci == 1, om)
     for i in range(n):
-        c[K(ks[i])] = 100 + i
-        M.assign(K(ks[i]), 100 + i)
+        val = VALS[i]                    # includes None and a value identical to the defaults used below
+        c[K(ks[i])] = val
+        M.assign(K(ks[i]), val)
         if len(c) > ms:
             return fail('capacity_exceeded', 'during pre-state')
     if pre_del and n:
@@ -402,8 +405,8 @@ def _body2(ci, om, name, name_b, ms, n, ks, nids, nb):
     c = mk(cls, ms, om, log)
     M = Model(ms, ci == 1, om)
     for i in range(n):
-        c[K(ks[i])] = 100 + i
-        M.assign(K(ks[i]), 100 + i)
+        c[K(ks[i])] = VALS[i]
+        M.assign(K(ks[i]), VALS[i])
     kk, kk2 = [K(x) for x in (ks[n:n + nids] + [90, 91])[:2]]
     kk3 = K(ks[-1]) if nb else K(92)
     cl = apply_op(c, M, cls, name, kk, kk2, log, om)
